@@ -28,7 +28,7 @@ use vharness::common::*;
 
 const APP: &str = "c13";
 const MODEL: &str = "ns { Person{ name:String, pets:[ns.Pet] } Pet{ name:String } }";
-const GRACE_MS: u64 = 25;
+const GRACE_MS: u64 = 120;
 
 // ------------------------------------------------------------------ workload
 #[derive(Serialize, Deserialize, Clone, Debug)]
@@ -302,7 +302,7 @@ struct Gate { key: u64, entered: Option<tokio::sync::oneshot::Sender<()>>, relea
 impl Writeable for Gate {
     fn write(&mut self, conn: &rusqlite::Connection) -> std::result::Result<(), rusqlite::Error> {
         if let Some(e) = self.entered.take() { let _ = e.send(()); }
-        let _ = self.release.recv_timeout(Duration::from_millis(3000));
+        let _ = self.release.recv_timeout(Duration::from_millis(15000));
         conn.execute("INSERT OR REPLACE INTO _configuration(key, value) VALUES (?, 'x')", [format!("verif_{}", self.key)])?;
         Ok(())
     }
@@ -369,7 +369,7 @@ async fn child(dir: PathBuf, spec: PathBuf, mode: u8, k: u64, out: PathBuf) {
     let pet_id = setup.mutate_entities[w.n_setup].sub_nodes.get("pets").unwrap()[0].node_to_mutate.id;
     let sp_id = setup.mutate_entities[w.n_setup].node_to_mutate.id;
     // start-up recompute + one recompute per mutate_raw: wait until the writer is quiet
-    let quiet = wait_data_changed(&mut ev, 3, 3000).await;
+    let quiet = wait_data_changed(&mut ev, 3, 20000).await;
     log.line(format!("R {}", hex::encode(room_id)));
     for (i, id) in setup_ids.iter().enumerate() { log.line(format!("S {} {}", i, hex::encode(id))); }
     log.line(format!("P {}", hex::encode(pet_id)));
@@ -409,7 +409,7 @@ async fn child(dir: PathBuf, spec: PathBuf, mode: u8, k: u64, out: PathBuf) {
         tokio::select! {
             _ = erx => {}
             _ = async { loop { tokio::time::sleep(Duration::from_millis(2)).await; if pending.load(Ordering::SeqCst) < before { break; } } } => {}
-            _ = tokio::time::sleep(Duration::from_millis(2000)) => {}
+            _ = tokio::time::sleep(Duration::from_millis(10000)) => {}
         }
         for r in phase {
             debug_assert!(matches!(&flat[idx].1, _x));
@@ -512,7 +512,7 @@ async fn child(dir: PathBuf, spec: PathBuf, mode: u8, k: u64, out: PathBuf) {
         tokio::time::sleep(Duration::from_millis(w.gate_ms)).await;
         let _ = rtx.send(());
         // every acknowledgement of the phase, before the next phase is submitted
-        let deadline = tokio::time::Instant::now() + Duration::from_millis(4000);
+        let deadline = tokio::time::Instant::now() + Duration::from_millis(20000);
         while pending.load(Ordering::SeqCst) > 0 && tokio::time::Instant::now() < deadline { tokio::time::sleep(Duration::from_millis(1)).await; }
         if pending.load(Ordering::SeqCst) > 0 { log.line(format!("T {}", pi)); }
     }
@@ -547,7 +547,8 @@ async fn verify(dir: PathBuf, spec: PathBuf, out: PathBuf) {
     let events = EventService::new();
     let mut ev = events.subcribe().await;
     let (svc, _vk) = start(&dir, &key, 1024, events).await;
-    let recomputed = wait_data_changed(&mut ev, 1, 3000).await;
+    let recomputed = wait_data_changed(&mut ev, 1, 20000).await;
+    if !recomputed { eprintln!("the start-up recompute was not announced within 20 s"); std::process::exit(4); }
     let st1 = dump(&path, &secret).expect("dump after restart");
     let (inv1, cons1) = log_check(&st1, &ids);
     let flat = w.flat();
@@ -604,6 +605,12 @@ fn gen_workload(rng: &mut Rng, n_phases: usize, max_reqs: usize) -> Workload {
 struct RunResult { mode: u8, k: u64, alive: bool, out: String, trace: Vec<(u8, u8)>, ver: Option<serde_json::Value>, err: Option<String>, retries: usize }
 
 fn run_one(exe: &Path, base: &Path, wid: usize, spec: &Path, mode: u8, k: u64) -> RunResult {
+    // a run in which a phase was not answered within the (generous) time limit, or which broke, is repeated once
+    let r = run_once(exe, base, wid, spec, mode, k);
+    if r.err.is_some() || r.out.lines().any(|l| l.starts_with("T ") || l == "Q 0") { return run_once(exe, base, wid, spec, mode, k); }
+    r
+}
+fn run_once(exe: &Path, base: &Path, wid: usize, spec: &Path, mode: u8, k: u64) -> RunResult {
     let dir = base.join(format!("w{}_{}_{}", wid, mode, k));
     let _ = std::fs::remove_dir_all(&dir);
     std::fs::create_dir_all(&dir).unwrap();
@@ -704,6 +711,7 @@ fn build_case(w: &Workload, wid: usize, r: &RunResult, hits_free: u64) -> Case {
         }
     }
     if quiet == 0 { return skip("writer not quiet when the points were armed".into()); }
+    if timeouts > 0 { return skip("a phase was not answered within 20 s".into()); }
     let n_hits = r.trace.iter().filter(|t| t.0 <= vf::P_ACK).count() as i64;
     if r.alive && hits != n_hits { return skip(format!("hits {} but trace has {}", hits, n_hits)); }
     let last_point = r.trace.iter().filter(|t| t.0 <= vf::P_ACK).last().map(|t| t.0 as i64).unwrap_or(0);
@@ -721,6 +729,13 @@ fn build_case(w: &Workload, wid: usize, r: &RunResult, hits_free: u64) -> Case {
         (m, _, _) if m == vf::MODE_FAIL => "fail-not-reached",
         _ => "fault-free",
     };
+    // a killed process: the acknowledgements of the batches that were completed before the fatal one must have
+    // been logged during the grace period; if the machine was too busy for that the run cannot be compared
+    if !r.alive && assigned.len() >= 2 {
+        for b in &assigned[..assigned.len() - 1] {
+            for i in b { if ack[*i] == 0 && !matches!(flat[*i].1, Req::Compute) { return skip(format!("acknowledgement of request {} not logged within the grace period", i)); } }
+        }
+    }
     let vis: Vec<i64> = ver["vis"].as_array().unwrap().iter().map(|v| v.as_i64().unwrap()).collect();
     let order: Vec<usize> = assigned.iter().flatten().cloned().chain(unsent.iter().cloned()).collect();
     let mut obs = vec![];
@@ -739,9 +754,17 @@ fn build_case(w: &Workload, wid: usize, r: &RunResult, hits_free: u64) -> Case {
     let coq = format!("(CRun {} {} {} {})",
         glist(&init),
         glist(&assigned.iter().map(|b| glist(&b.iter().map(|i| req_coq(&flat[*i].1)).collect::<Vec<_>>())).collect::<Vec<_>>()),
-        glist(&unsent.iter().map(|i| req_coq(&flat[*i].1)).collect::<Vec<_>>()),
+        glist(&unsent.iter().map(|i| format!("({}, {})", req_coq(&flat[*i].1), gb(ack[*i] == 2))).collect::<Vec<_>>()),
         fault);
+    let mut by_kind: HashMap<&str, usize> = HashMap::new();
+    for (_, q) in &flat { *by_kind.entry(match q { Req::Mut { stream: true, .. } => "mutation-stream", Req::Mut { .. } => "mutation", Req::Upd { .. } => "update", Req::Del { .. } => "deletion",
+        Req::Nodes { .. } => "ingested-nodes", Req::Room { .. } => "room-creation", Req::RoomUpd { .. } => "room-change", Req::Compute => "recompute", Req::Write { .. } => "generic-write" }).or_default() += 1; }
+    let n_ok = ack.iter().filter(|a| **a == 1).count();
+    let n_err = ack.iter().filter(|a| **a == 2).count();
+    let n_vis = vis.iter().filter(|v| **v == 1).count();
     Case { kind: kind.into(), coq, obs, meta: json!({"base": meta_base, "batches": assigned, "unsent": unsent, "timeouts": timeouts, "verifier_retries": r.retries,
+        "write_buffer_length": w.buffer, "requests_by_kind": by_kind, "batch_sizes": assigned.iter().map(|b| b.len()).collect::<Vec<_>>(),
+        "acknowledged_ok": n_ok, "reported_failed": n_err, "visible_after_restart": n_vis, "fatal_point": if r.alive { 0 } else { last_point },
         "vis_before_restart": ver["vis0"], "journal_mode": ver["journal_mode"], "requests": flat.iter().map(|(_, q)| format!("{:?}", q)).collect::<Vec<_>>() }) }
 }
 
@@ -762,8 +785,13 @@ fn parent() {
             vec![Req::Mut { persons: vec![(101, vec![102, 103]), (104, vec![])], stream: false }, Req::Del { target: 0 }, Req::Nodes { labels: vec![105, 106] }, Req::Compute],
             vec![Req::Upd { target: 1, label: 107 }, Req::Room { label: 108 }, Req::Write { key: 109 }]] },
     ];
-    let n_random = scale(4, 40);
-    for _ in 0..n_random { let np = 1 + rng.below(2) as usize; workloads.push(gen_workload(&mut rng, np, 4)); }
+    // write_buffer_length 1 and 2: every request its own batch / batches of two
+    workloads.push(Workload { key: fixed_key(9), n_setup: 2, gate_ms: 12, buffer: 1, phases: vec![
+        vec![Req::Mut { persons: vec![(111, vec![112])], stream: true }, Req::Upd { target: 0, label: 113 }, Req::Del { target: 1 }]] });
+    workloads.push(Workload { key: fixed_key(10), n_setup: 2, gate_ms: 12, buffer: 2, phases: vec![
+        vec![Req::Mut { persons: vec![(121, vec![])], stream: false }, Req::Nodes { labels: vec![122, 123] }, Req::Write { key: 124 }, Req::Compute, Req::Del { target: 0 }]] });
+    let n_random = scale(2, 40);
+    for _ in 0..n_random { let np = 1 + rng.below(scale(2, 3) as u64) as usize; workloads.push(gen_workload(&mut rng, np, scale(3, 4))); }
     let par: usize = std::env::var("VERIF_C13_PAR").ok().and_then(|s| s.parse().ok()).unwrap_or(12);
 
     // fault-free runs: the number of hits and the kind of every point
@@ -807,11 +835,19 @@ fn parent() {
     }
     let faulty = run_jobs(jobs);
     let mut counts: HashMap<String, usize> = HashMap::new();
+    let mut retried = 0;
     for (wid, r) in free.iter().chain(faulty.iter()) {
-        let c = build_case(&workloads[*wid], *wid, r, hits_free[*wid]);
+        let mut c = build_case(&workloads[*wid], *wid, r, hits_free[*wid]);
+        if c.kind == "unscheduled" || c.kind == "broken-run" {
+            // once more, alone
+            retried += 1;
+            let r2 = run_one(&exe, &base, *wid, &specs[*wid], r.mode, r.k);
+            c = build_case(&workloads[*wid], *wid, &r2, hits_free[*wid]);
+        }
         *counts.entry(c.kind.clone()).or_default() += 1;
         out.push(c);
     }
+    eprintln!("c13: {} runs repeated", retried);
     let n = out.n;
     out.finish();
     if std::env::var("VERIF_C13_KEEP").is_err() { let _ = std::fs::remove_dir_all(&base); }
